@@ -328,7 +328,21 @@ def addCore (props : JVal) : M (R Nat) := do
           pure (.ok uid)
   | _ => pure (.error (.other "AttributeError"))
 
+/-- `AddWatcher.execute`, first thing: in endpoint-owner mode (`endpoint_owner` set and an ipc:// control endpoint) the
+    `uid` option of the request must be the endpoint owner (`options.get('uid') != arbiter.endpoint_owner` → MessageError);
+    `options` is `props.get('options', {})` — `validate` has made sure it is an object when present -/
+def ownerRefuses (owner : Option String) (props : JVal) : Bool :=
+  match owner with
+  | none => false
+  | some o =>
+    let opts := match props.get? "options" with | some (.obj kvs) => kvs | _ => []
+    match (JVal.obj opts).get? "uid" with
+    | some (.str u) => u != o
+    | _ => true
+
 def execAdd (props : JVal) : M (R ExecRes) := do
+  let a ← getA
+  if ownerRefuses a.endpointOwner props then pure (.error .message) else
   let r ← syncPlain "arbiter_add_watcher" (addCore props)
   match r with
   | .error e => pure (.error e)
